@@ -101,17 +101,28 @@ pub fn triggers(src: &str, root: &SyntaxNode) -> Vec<&'static str> {
             v.push(id);
         }
     };
-    // R1 (CR form): CR, blanks, LF -- stripping the blanks makes it a CRLF pair, one line break
+    // R1 (CR form): CR, blanks (or further CRs), LF inside text that is copied verbatim -- a string, raw text,
+    // a comment, a node behind `@typstyle off` --: stripping the blanks makes it a CRLF pair, one line break.
+    // (In ordinary blanks between tokens typstyle counts the line breaks itself; seeded change C08-6 lives there.)
     {
         let b = src.as_bytes();
+        let verbatim_anywhere = src.contains("@typstyle off");
+        let mut spans: Vec<(usize, usize)> = vec![];
+        if !verbatim_anywhere {
+            for f in syn::flatten(root) {
+                if matches!(f.node.kind(), K::Str | K::Raw | K::BlockComment | K::LineComment) {
+                    spans.push((f.start, f.end));
+                }
+            }
+        }
         let mut i = 0;
         while i < b.len() {
             if b[i] == b'\r' {
                 let mut j = i + 1;
-                while j < b.len() && (b[j] == b' ' || b[j] == b'\t') {
+                while j < b.len() && (b[j] == b' ' || b[j] == b'\t' || b[j] == b'\r') {
                     j += 1;
                 }
-                if j > i + 1 && j < b.len() && b[j] == b'\n' {
+                if j > i + 1 && j < b.len() && b[j] == b'\n' && (verbatim_anywhere || spans.iter().any(|(s, e)| *s <= i && j < *e)) {
                     add("R1");
                 }
             }
@@ -479,12 +490,34 @@ pub fn triggers(src: &str, root: &SyntaxNode) -> Vec<&'static str> {
         }
         match k {
             K::Raw => {
-                if ends_line_with_blank(&syn::text_of(f.node)) {
+                // blanks behind the opening fence / language tag of a raw block are not content (Typst trims
+                // them): the line of the opening fence is left out (seeded change C10-8 lived there)
+                let whole = syn::text_of(f.node);
+                let fence_line_is_tag_only = {
+                    let first = whole.split(syn::is_nl).next().unwrap_or("");
+                    let rest = first.trim_start_matches('`');
+                    let tag_end = rest.find(|c: char| !(c.is_alphanumeric() || c == '_' || c == '-')).unwrap_or(rest.len());
+                    first.starts_with("```") && rest[tag_end..].chars().all(|c| c == ' ' || c == '\t')
+                };
+                let txt: String = if fence_line_is_tag_only {
+                    match whole.char_indices().find(|(_, c)| syn::is_nl(*c)) {
+                        Some((i, _)) => whole[i..].to_string(),
+                        None => whole.clone(),
+                    }
+                } else {
+                    whole.clone()
+                };
+                if ends_line_with_blank(&txt) {
                     add("R1");
                 }
                 // blank before the closing fence on the last line is content the same pass may strip
-                let txt = syn::text_of(f.node);
-                if txt.split(syn::is_nl).any(|l| l.chars().last().is_some_and(|c| c.is_whitespace())) && syn::has_nl(&txt) {
+                if txt.split(syn::is_nl).skip(1).any(|l| l.chars().last().is_some_and(|c| c.is_whitespace())) && syn::has_nl(&txt) {
+                    add("R1");
+                }
+                if !fence_line_is_tag_only
+                    && whole.split(syn::is_nl).any(|l| l.chars().last().is_some_and(|c| c.is_whitespace()))
+                    && syn::has_nl(&whole)
+                {
                     add("R1");
                 }
             }
@@ -797,6 +830,13 @@ pub fn triggers(src: &str, root: &SyntaxNode) -> Vec<&'static str> {
                                 Some(K::Markup | K::Math | K::Equation | K::MathDelimited | K::MathAttach | K::MathFrac | K::MathRoot) => true,
                                 // trailing content argument: `f(..)[` / `f[`
                                 Some(K::Args) => b.parent_idx.is_some_and(|a| {
+                                    // what stands before the bracket spans several lines (a multi-line string as
+                                    // callee, arguments broken over lines): the bracket is close to the start of
+                                    // its line after all
+                                    let call_start = flat[a].parent_idx.map(|c| flat[c].start).unwrap_or(flat[a].start);
+                                    if src.get(call_start..b.start).is_some_and(syn::has_nl) {
+                                        return false;
+                                    }
                                     let mut seen_close = !flat[a].node.children().any(|c| c.kind() == K::LeftParen);
                                     let mut off = flat[a].start;
                                     for c in flat[a].node.children() {
